@@ -22,12 +22,13 @@ PROPS["C02"] = dict(
     stages=[
         stage("corpus", workers=1),
         stage("automaton"),
+        stage("long"),
         stage("bounded"),
         stage("random", kind="rc", quick=6000, thorough=1500000, max_size=100),
     ],
     rule="Local parts are (a) every string prefix+byte+suffix of the automaton-conformance suite, (b) every string of length <= 6 (quick) / <= 8 "
          "(thorough) over 13 class-representative bytes, (c) grammar-generated valid and mutated local parts up to 300 octets, (d) the repository's "
-         "local-part corpus; each judged in modes 822/5321/5322 against the reference recogniser, with '@' and with NUL after the local part. "
+         "local-part corpus, (e) 29 shapes placing one structural event before / after / inside a run of 1-2100 (thorough 1-8300) octets; each judged in modes 822/5321/5322 against the reference recogniser, with '@' and with NUL after the local part. "
          "Non-trivial = accepted by the reference, or >= 2 bytes long with a first byte that does not reject at once (atom character or DQUOTE); "
          "distinct = by (mode, bytes) hash.",
     assumptions=["reference recogniser oracle/ref.hpp::local_ok is the specification (written from the statement and RFC 822/5321/5322 grammars)",
@@ -48,6 +49,7 @@ PROPS["C03"] = dict(
     stages=[
         stage("corpus", workers=1),
         stage("family"),
+        stage("long"),
         stage("utf8"),
         stage("bounded"),
         stage("random", kind="rc", quick=6000, thorough=1500000, max_size=100),
@@ -55,7 +57,7 @@ PROPS["C03"] = dict(
     rule="Mode-6531 local parts: (a) every 1- and 2-byte sequence, 3-byte sequences over boundary continuation values (quick) or all 255x255 "
          "(thorough), a structured 4-byte cover, each as atom / quoted / escaped / last bytes; (b) all strings of <= 6 (quick) / <= 8 (thorough) "
          "symbols over {a . \" \\ SP 0x01 U+0416 U+20AC U+10348 0x80 0xC3}; (c) the a.X.b / X\"q\" / \"\\X\" family over ~1000 code points; (d) grammar-based "
-         "random local parts with non-ASCII next to dots and quotes; (e) the repository corpus. Non-trivial = contains a byte >= 0x80 together with "
+         "random local parts with non-ASCII next to dots and quotes; (e) the repository corpus; (f) the 29 length-sweep shapes of C02 with runs of 1-1100 (thorough 1-4200) 1- to 4-byte characters. Non-trivial = contains a byte >= 0x80 together with "
          "one of . \" \\, or is a malformed-UTF-8 candidate; distinct by byte-string hash.",
     assumptions=["reference: RFC 3629 strict decoder + RFC 5321 grammar over code points (oracle/ref.hpp), default build (no RFC6531_* option)",
                  "validators are called with `end` on the terminating '@' or NUL"],
